@@ -35,7 +35,7 @@ class Fam:
             self.val = {"/a": 0, "/opt": None, "/arr/0": 0, "/arr/1": 0, "/arr/2": 0, "/inner/x": False,
                         "/inner/name": "", "/v": 0}
         elif fam == 3:
-            self.leaves = ([("/o/p", "u8"), ("/o/q", "u8")] + [(f"/lut/{i}", "u8") for i in range(12)] +
+            self.leaves = ([("/o/p", "u8"), ("/o/q", "u8")] + [(f"/lutab/{i}", "u8") for i in range(12)] +
                            [("/trip", "arr3i16"), ("/text", "hstr256"), ("/k", "u8"), ("/mode/A", "u8"), ("/mode/B", "u8")])
             self.val = {p: 0 for p, _ in self.leaves}
             self.val["/trip"] = [0, 0, 0]
@@ -63,7 +63,7 @@ class Fam:
                     f"{a0} N 0 - n:x,name 2 {a0} L l:bool b0 {a0} L l:hstr64 se "
                     f"a:1:-:-:-:-:0:0:1 L l:u8 i0")
         if self.fam == 3:
-            return (f"N 0 - n:o,lut,trip,text,k,mode 6 {a0} G option 1 N 0 - n:p,q 2 {a0} L l:u8 i0 {a0} L l:u8 i0 "
+            return (f"N 0 - n:o,lutab,trip,text,k,mode 6 {a0} G option 1 N 0 - n:p,q 2 {a0} L l:u8 i0 {a0} L l:u8 i0 "
                     f"{a0} A 12 " + " ".join("L l:u8 i0" for _ in range(12)) +
                     f" {a0} L l:arr3i16 A(i0,i0,i0) {a0} L l:hstr256 se {a0} L l:u8 i0 "
                     f"{a0} N 0 x n:A,B 2 {a0} L l:u8 i0 a:2:-:-:-:-:0:0:1 L l:u8 i0")
